@@ -116,8 +116,13 @@ func AcceptOrdinalSaleListing(ctx context.Context, vla *ValidateListingArgs, aso
 	validUTXOFound := false
 	for i, u := range asoa.UTXOs {
 		if u.Satoshis > sellerOutput.Satoshis {
-			// Move the UTXO at index i to the beginning
-			asoa.UTXOs = append([]*bt.UTXO{u}, append(asoa.UTXOs[:i], asoa.UTXOs[i+1:]...)...)
+			// Move the UTXO at index i to the beginning - in a list of our own:
+			// appending to asoa.UTXOs[:i] would shift the elements of the caller's slice
+			reordered := make([]*bt.UTXO, 0, len(asoa.UTXOs))
+			reordered = append(reordered, u)
+			reordered = append(reordered, asoa.UTXOs[:i]...)
+			reordered = append(reordered, asoa.UTXOs[i+1:]...)
+			asoa.UTXOs = reordered
 			validUTXOFound = true
 			break
 		}
